@@ -39,7 +39,7 @@ FnName(p, T) == IF p \in {"conv", "strconv"} THEN "convertsTo" \o T ELSE "to" \o
 (******************************* well-formedness ***************************)
 WellFormed(o) ==
   /\ o.T \in Targets
-  /\ o.prog \in {"to", "conv", "toto", "strto", "strconv"}
+  /\ o.prog \in {"to", "conv", "toto", "strto", "strconv", "rteq"}
   /\ (o.prog = "strconv" => o.x.t = TagOf(o.T))
   /\ (~o.alias => o.sfx = Suffix(o.prog, o.T))
   /\ o.sk \in {"lit", "env", "el"}
@@ -82,9 +82,16 @@ SelfTrip(o) == o.x.t = TagOf(o.T) /\ SoutUsable(o) /\ Len(o.sout.items) = 1
 (* the item the last conversion of the program is applied to *)
 Effective(o) == IF o.prog \in {"strto", "strconv"} /\ SoutUsable(o) /\ Len(o.sout.items) = 1 THEN o.sout.items[1] ELSE o.x
 
+(* rteq is left open where the conversion itself is: Quantity (recorded findings on the unit's spelling), ambiguous date   *)
+(* texts, toInteger of a string that is no Integer (a recorded finding: an error), complex elements                     *)
+RteqOpen(o) == o.T = "Quantity" \/ o.x.t \in {"cx", "q"} \/ Amb(o.T, o.x) \/ (o.T = "Integer" /\ o.x.t = "s" /\ To(o.T, o.x) = <<>>)
+
 Accept(o) ==
+  IF o.prog = "rteq" /\ RteqOpen(o) THEN ~IsFailure(o.out) ELSE
   /\ o.out.k = "ok"
-  /\ CASE o.prog = "conv"  -> AcceptConv(o.T, o.x, o.out.items)
+  /\ CASE o.prog = "rteq"  -> IF To(o.T, o.x) = <<>> THEN Len(o.out.items) = 0
+                               ELSE Len(o.out.items) = 1 /\ o.out.items[1].t = "b" /\ o.out.items[1].b
+       [] o.prog = "conv"  -> AcceptConv(o.T, o.x, o.out.items)
        [] o.prog = "to"    -> AcceptTo(o.T, o.x, o.out.items)
        [] o.prog = "toto"  -> AcceptTo(o.T, o.x, o.out.items)
        [] o.prog = "strto" -> IF ~SoutUsable(o) THEN TRUE          \* toString() itself is wrong: judged on its own record
@@ -106,6 +113,7 @@ TagName(it) == IF it.t = "el" THEN "el" ELSE it.t
 WantKind(o) ==
   LET y == Effective(o)
   IN IF o.prog = "conv" THEN "bool:" \o (IF Convertible(o.T, o.x) THEN "true" ELSE "false")
+     ELSE IF o.prog = "rteq" THEN (IF RteqOpen(o) THEN "open" ELSE IF To(o.T, o.x) = <<>> THEN "ok0" ELSE "bool:true")
      ELSE IF o.prog \in {"strto", "strconv"} /\ SoutUsable(o) /\ Len(o.sout.items) = 0 THEN "ok0"
      ELSE IF o.prog \in {"strto", "strconv"} /\ SelfTrip(o) THEN "self"
      ELSE IF o.T = "String" /\ y.t \in SystemTags /\ y.t # "s" THEN "roundtrip"
@@ -118,7 +126,7 @@ GotKind(o) ==
   ELSE IF Len(o.out.items) = 0 THEN "ok0"
   ELSE IF Len(o.out.items) > 1 THEN "okN"
   ELSE LET it == o.out.items[1]
-       IN IF o.prog \in {"conv", "strconv"} /\ it.t = "b" THEN "bool:" \o (IF it.b THEN "true" ELSE "false")
+       IN IF o.prog \in {"conv", "strconv", "rteq"} /\ it.t = "b" THEN "bool:" \o (IF it.b THEN "true" ELSE "false")
           ELSE IF it.t = TagOf(o.T) /\ o.prog \notin {"conv", "strconv"} THEN "ok1:" \o it.t \o ":wrong-value"
           ELSE "ok1:" \o TagName(it)
 
@@ -144,6 +152,7 @@ Sig(o) ==
 
 Want(o) ==
   IF o.prog = "conv" THEN Ok(<<B(Convertible(o.T, o.x))>>)
+  ELSE IF o.prog = "rteq" THEN (IF To(o.T, o.x) = <<>> THEN Ok(<<>>) ELSE Ok(<<B(TRUE)>>))
   ELSE IF o.prog = "strconv" THEN Ok(<<B(TRUE)>>)
   ELSE IF o.prog = "strto" /\ SelfTrip(o) THEN Ok(<<o.x>>)
   ELSE Ok(To(o.T, Effective(o)))
